@@ -291,10 +291,10 @@ class TranscriptAnnotationModel():
         if self.transcript.strand == 1:
             index = 0
             for exon in self.exon:
-                if exon.location.end < genomic_index:
+                if exon.location.end <= genomic_index:
+                    # also when the next exon starts exactly here (book-ended
+                    # exons); a true intronic base is rejected by the next exon.
                     index += exon.location.end - exon.location.start
-                elif exon.location.end == genomic_index:
-                    raise ValueError(ERROR_INDEX_IN_INTRON)
                 elif exon.location.start <= genomic_index:
                     index += genomic_index - exon.location.start
                     break
